@@ -257,7 +257,7 @@ func (ls *List) Map(ctx context.Context, fn Object) Object {
 			outputValue, err = callFunc(ctx, compiledFunc, mapArgs)
 		}
 		if err != nil {
-			return Errorf(err.Error())
+			return NewError(err)
 		}
 		if IsError(outputValue) {
 			return outputValue
@@ -289,7 +289,7 @@ func (ls *List) Filter(ctx context.Context, fn Object) Object {
 			var err error
 			decision, err = callFunc(ctx, fn.(*Function), filterArgs)
 			if err != nil {
-				return Errorf(err.Error())
+				return NewError(err)
 			}
 		}
 		if IsError(decision) {
@@ -323,7 +323,7 @@ func (ls *List) Each(ctx context.Context, fn Object) Object {
 			var err error
 			result, err = callFunc(ctx, fn.(*Function), eachArgs)
 			if err != nil {
-				return Errorf(err.Error())
+				return NewError(err)
 			}
 		}
 		if IsError(result) {
@@ -402,7 +402,7 @@ func (ls *List) Insert(index int64, obj Object) {
 func (ls *List) Pop(index int64) Object {
 	idx, err := ResolveIndex(index, int64(len(ls.items)))
 	if err != nil {
-		return Errorf(err.Error())
+		return NewError(err)
 	}
 	result := ls.items[idx]
 	ls.items = append(ls.items[:idx], ls.items[idx+1:]...)
@@ -508,7 +508,7 @@ func (ls *List) GetItem(key Object) (Object, *Error) {
 	}
 	idx, err := ResolveIndex(indexObj.value, int64(len(ls.items)))
 	if err != nil {
-		return nil, Errorf(err.Error())
+		return nil, NewError(err)
 	}
 	return ls.items[idx], nil
 }
@@ -517,7 +517,7 @@ func (ls *List) GetItem(key Object) (Object, *Error) {
 func (ls *List) GetSlice(s Slice) (Object, *Error) {
 	start, stop, err := ResolveIntSlice(s, int64(len(ls.items)))
 	if err != nil {
-		return nil, Errorf(err.Error())
+		return nil, NewError(err)
 	}
 	items := ls.items[start:stop]
 	itemsCopy := make([]Object, len(items))
@@ -533,7 +533,7 @@ func (ls *List) SetItem(key, value Object) *Error {
 	}
 	idx, err := ResolveIndex(indexObj.value, int64(len(ls.items)))
 	if err != nil {
-		return Errorf(err.Error())
+		return NewError(err)
 	}
 	ls.items[idx] = value
 	return nil
@@ -547,7 +547,7 @@ func (ls *List) DelItem(key Object) *Error {
 	}
 	idx, err := ResolveIndex(indexObj.value, int64(len(ls.items)))
 	if err != nil {
-		return Errorf(err.Error())
+		return NewError(err)
 	}
 	ls.items = append(ls.items[:idx], ls.items[idx+1:]...)
 	return nil
